@@ -216,7 +216,7 @@ pub fn one_c07(prop: &str, c: &Case, rep: &mut Report) {
     }
     // a partial construction is a function of its arguments only: repeat it after partial constructions of the SAME
     // positions with another dimensionality / periodic flag / mask on the same thread (every 8th input)
-    if c.hash() % 8 == 0 {
+    if c.hash() % 8 == 0 && c.n() <= 2000 {
         let other_dim = if c.dim == 3 { 2 } else { 3 };
         let mut v1 = c.clone();
         v1.dim = other_dim;
@@ -317,8 +317,10 @@ pub fn c07(a: &Args, rep: &mut Report) {
         rep.count("inputs_with_all_masks_enumerated", 1);
     });
     medium_cases(a, rep, "C07", |c, rep| one_c07("C07", c, rep));
-    // large inputs (index values beyond 2^16 / 2^17 / 2^18, several blocks of any blocked loop) under a seeded mask
-    crate::props::large_cases(a, rep, "C07", &[20000, 70000], &[20000, 70000, 140000, 270000], |c, rep| {
+    // large inputs (index values beyond 2^16 / 2^17 / 2^18, several blocks of any blocked loop) under a seeded mask: thorough
+    // tier only (the monitor's own per-cell maps make a 70 000-generator case cost a minute of single-threaded time; in the
+    // quick tier masked partial constructions of that size run in C12 and C13, whose monitors are cheaper)
+    crate::props::large_cases(a, rep, "C07", &[], &[20000, 70000, 140000, 270000], |c, rep| {
         let mut c = c.clone();
         let mut r = Rng::stream("C07largemask", &[c.hash()]);
         c.mask = Some(gen_mask(c.n(), &mut r));
